@@ -67,9 +67,40 @@ def validate(ctx, cases, tag, width=64, jobs=16, module="TshRun", timeout=2400, 
     return res
 
 
+SPELLINGS = ("brackets", "lean", "var")
+SPELL_PROPS = ("C01", "C02", "C03", "C04")      # properties without known findings matched by case id
+SPELL_SHARE = {"quick": 5, "thorough": 2}
+
+
+def respelled(ctx, cases):
+    """A sample of the cases once more, each written in another legal spelling (harness/respell.go): redundant brackets, no blanks /
+    no optional brackets, `var x = v` for `x := v`.  The specification runs the same program, so the expectation is the same.
+    Every case of the sample gets ONE spelling, chosen by a digest of its id; the share is a property of the tier."""
+    share = getattr(ctx, "spell_share", 0) or (SPELL_SHARE.get(ctx.tier, 0) if ctx.prop in SPELL_PROPS else 0)
+    if not share:
+        return []
+    import hashlib
+    out = []
+    for c in cases:
+        if "src" in c or c.get("spell") or not isinstance(c.get("prog"), dict) or "@" in c["id"]:
+            continue
+        h = int(hashlib.sha256((c["id"] + "/" + str(ctx.seed)).encode()).hexdigest()[:8], 16)
+        if h % share:
+            continue
+        d = dict(c)
+        d["spell"] = SPELLINGS[(h // share) % len(SPELLINGS)]
+        d["id"] = c["id"] + "@" + d["spell"]
+        out.append(d)
+    return out
+
+
 def judge(ctx, cases, tag, width=64, require_defined=False):
     """Full flow with isolated confirmation of every rejection.  Returns the list of confirmed failures
     as (case, verdict, signature); counts evaluations/traces/dropped in ctx."""
+    extra = respelled(ctx, cases)
+    if extra:
+        cases = list(cases) + extra
+        ctx.notes["respelled_cases"] = ctx.notes.get("respelled_cases", 0) + len(extra)
     res = validate(ctx, cases, tag, width)
     ctx.evaluations += len(res)
     bad = []
